@@ -4,7 +4,10 @@ from bounded import b_genparams as B
 
 from contracts import modifications as M
 
-P_UNITS = [PUnit("modification-target-by-resid", M.CONTRACTS, M.REG)]
+from contracts import links as LK
+
+P_UNITS = [PUnit("modification-target-by-resid", M.CONTRACTS, M.REG),
+           LUnit("rejected-link-changes-nothing", LK.lemma_veto_before_effect)]
 
 
 def build(tier, seed):
